@@ -290,6 +290,7 @@ def merge_eval(ex, thunk):
         sub.fresh_n = outer.fresh_n + 100000
         sub.depth = outer.depth
         sub.inputs = outer.inputs
+        sub.in_merge = True
         ex.run = sub
         try:
             try:
@@ -339,7 +340,10 @@ def merged_value(ex, results, want_kind=None):
     for pc, v in reversed(rets):
         t = P.lift(ex, v, kind)
         cond = z3.And(*pc) if pc else z3.BoolVal(True)
-        term = t if term is None else z3.If(cond, t, term)
+        if term is None or z3.eq(t, term):
+            term = t
+        else:
+            term = z3.If(cond, t, term)
     return Sym(kind, term), raise_cond
 
 
@@ -409,7 +413,21 @@ def comprehension(ex, node, fr, flavour):
         eres = merge_eval(ex, guarded)
         val, rc = merged_value(ex, eres)
         if rc is not None:
-            raise OutOfSubset('comprehension element may raise')
+            # some element may make the element expression raise: fork into "no element does" / "one does"
+            rexc = [v for pc, tag, v in eres if tag == 'raise'][0]
+            idx = ex.run.fresh(K.Int, 'raise_at')
+            rc_at = z3.substitute(rc, (x.t, s.t[idx.t]))
+            if guard is not None:
+                rc_at = z3.And(z3.substitute(guard, (x.t, s.t[idx.t])), rc_at)
+            c = ex.run.choose(2, tag='comprehension', labels=['ok', f'raises:{rexc.cls}'])
+            if c == 1:
+                ex.run.assume(z3.And(idx.t >= 0, idx.t < z3.Length(s.t), rc_at))
+                raise RaiseEx(ExcVal(rexc.cls, origin=f'comprehension element: {rexc.origin}'))
+            i_ = z3.Int('cr_i')
+            body = z3.Not(z3.substitute(rc, (x.t, s.t[i_])))
+            if guard is not None:
+                body = z3.Implies(z3.substitute(guard, (x.t, s.t[i_])), body)
+            ex.run.assume(P.forall([i_], z3.Implies(z3.And(i_ >= 0, i_ < z3.Length(s.t)), body), patterns=[s.t[i_]]))
     lam = Lam([x], val, guard)
     r = filter_map(ex, s, lam)
     if flavour == 'dict':
